@@ -299,7 +299,9 @@ SRC = {
     "helper": "{% set top = gf('top') %}"
               "{% macro show(o) %}<{{ o.a }}{{ o['i'] }}{{ o }}{{ G.b }}>{% endmacro %}"
               "{% macro twice(c) %}{{ c(1) }}{{ c(2) }}{% endmacro %}"
-              "{% macro wrap() %}({{ caller(G) }}){% endmacro %}",
+              "{% macro wrap() %}({{ caller(G) }}){% endmacro %}"
+              "{% macro esc(c) %}{% autoescape true %}{{ c(1) }}{{ '<' }}{% endautoescape %}{% autoescape false %}{{ c(2) }}{% endautoescape %}{% endmacro %}"
+              "{% macro mix(x) %}{{ [x, '-'|safe]|join(',') }}{{ x }}{% endmacro %}",
     "helper_x": "{% set tv = xg.a %}{% macro mm() %}{{ tv }}{{ xg['i'] }}{% endmacro %}",
     "part": "{% for x in it %}({{ rec('x', x) }}{{ loop.index }}/{{ loop.length }}){% endfor %}{{ o.a }}",
     "part_nc": "[{{ gf('p') }}{{ G.a }}]",
@@ -325,6 +327,9 @@ SRC = {
     "filters": "{{ objs|map(attribute='a')|join(',') }}|{{ objs|sort(attribute='a')|length }}|{{ it|list|length }}|{{ it|first is defined }}"
                "|{{ o|string }}|{{ objs|selectattr('a')|list|length }}|{% if sq is sequence %}@Y@{% else %}@N@{% endif %}"
                "|{{ 3 in objs }}|{{ objs|join('+') }}|{{ o|attr('a') }}{% if flag %}{{ objs|map('string')|list|length }}{% endif %}",
+    # regions that change per-render state of a cached module's context, then templates that observe it
+    "escimport": "{% import 'helper' as h %}{{ h.esc(f) }}{{ h.mix('<a>') }}{% autoescape true %}{{ f(3) }}{{ o }}{% endautoescape %}{{ '<' ~ o.a }}",
+    "escimport2": "{% import 'helper' as h %}{{ h.mix('<b>') }}{% from 'helper' import esc %}{{ esc(f) }}{{ h.mix(o.a) }}",
     "globals": "{% import 'helper' as h %}{{ h.show(G) }}{{ gf(1) }}{{ G.a }}{% include 'part_nc' without context %}{{ h.top }}",
     "xglobals": "{% import 'helper_x' as hx %}{{ hx.mm() }}{{ hx.tv }}{% from 'helper_x' import mm %}{{ mm() }}"
                 "{% import 'helper' as h %}{{ h.top }}",
@@ -333,15 +338,16 @@ SRC = {
 }
 # scenario -> the other template rendered afterwards (shares helper / part / base with it)
 OTHER = {"basic": "include", "import": "fromimport", "fromimport": "globals", "include": "globals", "child": "child2", "child2": "child",
-         "nested": "import", "filters": "basic", "globals": "import", "xglobals": "import", "async": "import"}
+         "nested": "import", "filters": "basic", "globals": "import", "xglobals": "import", "async": "import",
+         "escimport": "escimport2", "escimport2": "escimport"}
 SCENARIOS = list(OTHER)
 TGLOBALS = {"xglobals": {"xg": XG}}
 
 ENVKINDS = {"sync": dict(), "async": dict(enable_async=True), "sync-autoescape": dict(autoescape=True)}
 ENTRIES = {
-    "sync": ["render", "generate", "make_module"],
-    "sync-autoescape": ["render", "generate", "make_module"],
-    "async": ["render_async", "generate_async", "make_module_async", "render@async", "generate@async"],
+    "sync": ["render", "generate", "make_module", "stream@2", "stream@3", "dump@2"],
+    "sync-autoescape": ["render", "generate", "make_module", "stream@3"],
+    "async": ["render_async", "generate_async", "make_module_async", "render@async", "generate@async", "stream@2"],
 }
 
 
@@ -357,6 +363,19 @@ def run(env, name, entry, ctx):
         return t.render(ctx)
     if entry in ("generate", "generate@async"):
         return "".join(t.generate(ctx))
+    if entry.startswith("stream@") or entry.startswith("dump@"):
+        # buffered template stream: an exception from the data must not be absorbed by the buffering
+        st = t.stream(ctx)
+        st.enable_buffering(int(entry.split("@")[1]))
+        if entry.startswith("dump@"):
+            parts = []
+
+            class _W:
+                def write(self, x):
+                    parts.append(x)
+            st.dump(_W())
+            return "".join(parts)
+        return "".join(st)
     if entry == "make_module":
         return str(t.make_module(ctx))
     if entry == "module":       # the cached default module: the template may only use globals
